@@ -98,7 +98,7 @@ def run(cx):
         r.check(lead == want_ and not later and not in_setup, f"parse/script[{label}]-one-poll-per-button-first-sorted", (pm, pf), f"script `{label}`: loop_body begins with polls {lead} (later polls {later}, polls in setup {in_setup}); expected exactly {want_} at the head")
 
     # ---- C15-CACHED --------------------------------------------------------------------------
-    r = cx.rule("C15-CACHED", "is_pressed() is translated to the cached sample (never a pin read) and registers the poll; no parser template other than the Core digital_read helper can produce digitalRead", floor=5)
+    r = cx.rule("C15-CACHED", "is_pressed() is translated to the cached sample (never a pin read) and registers the poll; no parser template other than the Core digital_read helper can produce digitalRead", floor=3)
     tce = pm.func("_to_c_expr")
     ctx = {"button_names": {"dev"}}
     out = dl.Interp(pm, opaque={"ast.parse": ast.parse}).call(tce, ["dev.is_pressed()", {}, ctx])
